@@ -17,6 +17,7 @@ META = {
         "tags outside the transferable set (u8, bstring, struct, enum, union, function, tuple, hashmap, >= 0x0F) are serialised as the tag byte only and come back as void: recorded by C15.other.*, outside the property",
         "C15.reqbuf.argc1 covers ONE scalar-or-string argument; vm_ffi_call_cop also silently drops arguments beyond the 16th (argc is sent as arg_count): not covered by an obligation",
         "C15.ser.string.anylen and C15.reqbuf.argc1 are EXPECTED to be refuted on the unchanged tree (uint32 wrap of 5+len for len >= 2^32-5; fixed 8192-byte request buffer); both reproduce natively (replay/replay_cop.c strser / args)",
+        "C15.reply.accept proves on the real vm_ffi_call_cop: request sent + response header accepted by cop_recv_header (version 1, payload_len <= COP_MAX_PAYLOAD) with type FFI_RESULT + payload delivered completely + payload decodes to a transferable value => returns true, *result is exactly the decoded value (void for an empty payload), co-process kept.  The peer's reply is a ghost script (__verif_cop_peer, never assigned) handed out by the caller-view contracts of cop_recv_header / cop_recv_payload / cop_deserialize_value, so the clause also binds paths that never ask for the payload; receive-buffer malloc succeeds (framework assumption)",
     ],
     "undecided_part": "arrays (flat or nested): no round-trip obligation closes, bounded or not; whole-program equality of output between nano_vm and nano_vm --isolate-ffi; behaviour of the foreign functions in another process (locale, cwd, fds); handle_ffi_req in cop_main.c (same-callee) is not under contract",
 }
@@ -87,4 +88,11 @@ def obligations(repo):
                     functions=["vm_ffi_call_cop"], timeout=900, weight=20,
                     must_have=[r"vm_ffi_call_cop\.postcondition", r"cop_serialize_value\.precondition", r"COVER"], min_checks=100,
                     witness={"replayer": "cop"}))
+    # a well-formed reply is ACCEPTED (the peer's reply is a ghost script fixed before the call): same harness and
+    # caller-view contracts as C16.call, plus the acceptance postconditions (-DCOP_REPLY_ACCEPT)
+    obs.append(dict(id="C15.reply.accept", prop="C15", harness="harness/cop_call_h.c", entry="h_call", defines={"COP_REPLY_ACCEPT": 1},
+                    enforce="vm_ffi_call_cop", replace=CREPL, sources=["src/nanovm/cop_protocol.c"], unwind=18, strength="U",
+                    functions=["vm_ffi_call_cop"], timeout=900, weight=20,
+                    must_have=[r"vm_ffi_call_cop\.postcondition", r"cop_deserialize_value\.precondition", r"cop_recv_payload\.precondition",
+                               r"COVER"], min_checks=100))
     return obs
